@@ -630,16 +630,19 @@ class BrownianInterval(brownian_base.BaseBrownian, _Interval):
         else:
             if self._dt is None and not self._halfway_tree:
                 self._num_evaluations += 1
+                # Compute average step size so far (over every query, including those of the warm-up period)
+                dt = tb - ta
+                num_queries = self._num_evaluations + 100
+                self._average_dt = (dt + self._average_dt * (num_queries - 1)) / num_queries
                 # We start off with "negative" num evaluations, to give us a small warm-up period at the start.
                 if self._num_evaluations > 0:
-                    # Compute average step size so far
-                    dt = tb - ta
-                    self._average_dt = (dt + self._average_dt * (self._num_evaluations - 1)) / self._num_evaluations
                     if self._average_dt < 0.5 * self._tree_dt:
                         # If 'dt' wasn't specified, then check the average interval length against the size of the
                         # bottom of the dependency tree. If we're below halfway then refine the tree by splitting all
                         # the bottom pieces into two.
-                        self._create_dependency_tree(dt)
+                        # (Refine to the average, not to the length of this one query, which may be arbitrarily small:
+                        # e.g. the clipped last step of a solver.)
+                        self._create_dependency_tree(self._average_dt)
 
             # Find the intervals that correspond to the query. We start our search at the last interval we accessed in
             # the binary tree, as it's likely that the next query will come nearby.
